@@ -169,6 +169,9 @@ type Prior struct {
 	Reads []int     `json:"reads,omitempty"`
 	Dict  *DataSpec `json:"dict,omitempty"`
 	Close bool      `json:"close,omitempty"` // call Close on the Reader after this use (before the next Reset)
+	// FailAfter > 0: the source of this earlier stream fails (injected error)
+	// after that many bytes, so the Reader is left in a source-error state.
+	FailAfter int `json:"fail_after,omitempty"`
 }
 
 // RScen is one Reader history: optional earlier uses, then the stream under test.
@@ -491,7 +494,11 @@ func RunR(t *kern.Task, log *kern.Log, sc *RScen, fast bool) (rec *RRec) {
 		if pr.Dict != nil {
 			pd = pr.Dict.Bytes()
 		}
-		psrc, _, _ := makeSource(t, log, fmt.Sprintf("prior%d", pi), pb.Bytes, kern.Delivery{}, SrcSpec{Kind: "plain"})
+		pdel := kern.Delivery{}
+		if pr.FailAfter > 0 {
+			pdel = kern.Delivery{HasFail: true, FailAfter: pr.FailAfter % (len(pb.Bytes) + 1)}
+		}
+		psrc, _, _ := makeSource(t, log, fmt.Sprintf("prior%d", pi), pb.Bytes, pdel, SrcSpec{Kind: "plain"})
 		if rd == nil {
 			rd, err = openReader(sc.Pkg, fast, psrc, pd)
 			if err != nil {
